@@ -926,3 +926,86 @@ def natural_loops(fn):
                 h[0] |= body
                 h[1].append(b)
     return [(h, v[0], v[1]) for h, v in sorted(by_head.items())]
+
+
+# ------------------------------------------------------------------ helper inlining
+
+
+def _subst_params(e, mapping):
+    """Substitute parameter places of a callee body by the caller's argument expressions."""
+    if not isinstance(e, tuple):
+        return e
+    k = e[0]
+    if k == "place":
+        s = e[1]
+        root = s
+        for ch in ".@[":
+            root = root.split(ch)[0]
+        if root in mapping:
+            a = mapping[root]
+            rest = s[len(root):]
+            while a[0] == "ref" and rest.startswith(".*"):
+                a = a[2]
+                rest = rest[2:]
+            if a[0] == "ref" and not rest:
+                return a
+            if a[0] == "ref":
+                a = a[2]
+            if not rest:
+                return a
+            if a[0] == "place":
+                return ("place", _norm_self(a[1] + rest), e[2])
+            return ("proj", a, rest, e[2])
+        return e
+    if k == "call":
+        return ("call", e[1], e[2], tuple(_subst_params(a, mapping) for a in e[3]), e[4], e[5])
+    if k in ("fn", "const", "uneval", "cycle", "yield", "other"):
+        return e
+    if k == "agg":
+        return e[:5] + (tuple(_subst_params(a, mapping) for a in e[5]),)
+    if k == "phi":
+        return ("phi", e[1], tuple(_subst_params(a, mapping) for a in e[2]))
+    return tuple(_subst_params(x, mapping) if isinstance(x, tuple) and x else x for x in e)
+
+
+_HELPER_BODY = {}
+
+
+def inline_helpers(prog, e, depth=0, skip=("encode", "decode", "encoded_len")):
+    """Replace calls of local straight-line helper functions (any number of arguments) by
+    their return expression over the caller's arguments."""
+    if not isinstance(e, tuple) or depth > 4:
+        return e
+    k = e[0]
+    if k == "call":
+        args = tuple(inline_helpers(prog, a, depth, skip) for a in e[3])
+        e = ("call", e[1], e[2], args, e[4], e[5])
+        tgt = e[2] or e[1]
+        fn = prog.by_norm.get(tgt) if tgt else None
+        if fn is not None and fn.name not in skip and fn.arg_count == len(args):
+            key = (id(prog), tgt)
+            if key not in _HELPER_BODY:
+                _HELPER_BODY[key] = None
+                live = fn.live_blocks()
+                if all(len(fn.succs(b)) <= 1 for b in live):
+                    eb = ExprBuilder(prog, fn)
+                    ds = [d for d in fn.defs(0) if d[0] in ("assign", "call")]
+                    if len(ds) == 1 and not any(d[0] == "partial" for d in fn.defs(0)):
+                        body = eb._def_expr(ds[0], 0, (0,))
+                        if not _has_kind(body, ("cycle", "phi", "yield", "other")):
+                            _HELPER_BODY[key] = body
+            body = _HELPER_BODY[key]
+            if body is not None:
+                names = {}
+                for vn, l, proj in fn.var_places:
+                    if not proj and 1 <= l <= fn.arg_count:
+                        names[vn] = args[l - 1]
+                return inline_helpers(prog, _subst_params(body, names), depth + 1, skip)
+        return e
+    if k in ("fn", "const", "uneval", "place", "cycle", "yield", "other"):
+        return e
+    if k == "agg":
+        return e[:5] + (tuple(inline_helpers(prog, a, depth, skip) for a in e[5]),)
+    if k == "phi":
+        return ("phi", e[1], tuple(inline_helpers(prog, a, depth, skip) for a in e[2]))
+    return tuple(inline_helpers(prog, x, depth, skip) if isinstance(x, tuple) and x else x for x in e)
